@@ -32,9 +32,18 @@ def run(tier, replay=None):
     l2c = [c for c in l2all if len(c["hist"]) == 2]
     sim = [c for c in gen.dedupe(sim, key) if len(c["hist"]) >= 3]
     n2 = len(l2c)
-    b2, b3 = (5000, 1500) if tier == "quick" else (16000, 8000)
+    b2, b3 = (3500, 1500) if tier == "quick" else (16000, 8000)
+    # pairs (re-binding of the alias, mutation): the place where wrong sharing shows - kept apart from the rest of the pairs so
+    # that the sample always holds many of them (all of them in thorough)
+    REBIND = {"alias", "clone", "filterto", "mapto", "litfrom", "mapfrom", "joinalias", "malias", "mclone", "mlitfrom"}
+    MUTATE = {"push", "reverse", "clear", "inner", "remove", "set", "opset", "opsub", "join", "mset", "mopset", "msub", "replace", "mremove", "mclear"}
+    share = [c for c in l2c if c["hist"][0]["op"] in REBIND and c["hist"][1]["op"] in MUTATE]
+    bs = 2500 if tier == "quick" else len(share)
+    if len(share) > bs:
+        share = rnd.sample(share, bs)
     if len(l2c) > b2:
         l2c = rnd.sample(l2c, b2)
+    l2c = gen.dedupe(share + l2c, key)
     if len(sim) > b3:
         sim = rnd.sample(sim, b3)
     cases, g1 = gen.expand("GenHeap", work / "expand", gen.dedupe(l1c + l2c + sim, key), "GenHeapSel")
